@@ -187,7 +187,40 @@ def quick_valid(ex, goal, extra=(), timeout_ms=1500):
   return s.check() == z3.unsat
 
 
-def solve_witness(idx, elim, fresh_idx):
+def carried_dependences(ex, body_log, counters, skip=()):
+  """arrays read at a cell that a DIFFERENT iteration/thread (any counter differs) may write"""
+  new_dirty = set()
+  pairs = [(k, z3.Int(k.decl().name() + "'")) for k in counters]
+  differ = zor(*[a != b for a, b in pairs])
+  writes_by_arr = {}
+  for w in body_log:
+    if w.kind in ("w", "atomic"):
+      writes_by_arr.setdefault(w.arr.aid, []).append(w)
+  for a in body_log:
+    if a.kind != "r" or a.arr.aid in skip or a.arr.aid in new_dirty:
+      continue
+    for w in writes_by_arr.get(a.arr.aid, ()):
+      gw = z3.substitute(zb(w.guard), *pairs)
+      iw = [z3.substitute(lift(i), *pairs) for i in w.idx]
+      same = zand(*[lift(x) == y for x, y in zip(a.idx, iw)])
+      if not quick_valid(ex, z3.Not(z3.And(zb(a.guard), gw, zb(same), zb(differ)))):
+        new_dirty.add(a.arr.aid)
+        break
+  return new_dirty
+
+
+def _conjuncts(g):
+  if not isinstance(g, z3.ExprRef):
+    return []
+  if z3.is_and(g):
+    out = []
+    for c in g.children():
+      out.extend(_conjuncts(c))
+    return out
+  return [g]
+
+
+def solve_witness(idx, elim, fresh_idx, guard=None):
   """for each var in elim find dim d with idx[d] = base + c*var (c concrete != 0, base free of
   elim vars); return {var: witness term over fresh_idx} or None"""
   wit = {}
@@ -220,12 +253,24 @@ def solve_witness(idx, elim, fresh_idx):
       used.add(d)
       found = True
       break
+    if not found and guard is not None:
+      # one-point rule: the guard pins the counter (e.g. `if worldid == 0`)
+      for c in _conjuncts(guard):
+        if z3.is_eq(c):
+          a, b = c.children()
+          for x, y in ((a, b), (b, a)):
+            if x.eq(v) and not (free_consts(y) & elim_names):
+              wit[v] = y
+              found = True
+              break
+        if found:
+          break
     if not found:
       return None
   return wit
 
 
-def summarise_stores(ex, body_log, arrs_before, outer_bound, fr_key, lineno):
+def summarise_stores(ex, body_log, arrs_before, outer_bound, fr_key, lineno, parallel=False):
   """apply closed-form summaries of the stores in body_log on top of arrs_before"""
   st = ex.st
   st.arrs = dict(arrs_before)
@@ -245,24 +290,51 @@ def summarise_stores(ex, body_log, arrs_before, outer_bound, fr_key, lineno):
           elim_all.append(b)
     ok = True
     why = ""
-    # order condition between different store statements
+    # side conditions between store statements (w1 precedes w2 in program order)
+    par_names = {t.decl().name() for t in (ex.tids if parallel else [])}
     for i, w1 in enumerate(writes):
-      for w2 in writes[i + 1 :]:
-        # w1 precedes w2 in program order; bad if w1 at a later iteration hits w2's cell
-        el = [b for b in elim_all]
-        p1 = [(b, z3.Int(b.decl().name() + "'a")) for b in el]
-        p2 = [(b, z3.Int(b.decl().name() + "'b")) for b in el]
-        g1 = subst(zb(w1.guard), p1)
-        g2 = subst(zb(w2.guard), p2)
-        same = zand(*[lift(subst(lift(x), p1)) == lift(subst(lift(y), p2)) for x, y in zip(_full_idx(w1), _full_idx(w2))])
+      for w2 in writes[i:]:
         if len(_full_idx(w1)) != len(_full_idx(w2)):
           ok, why = False, "mixed component/whole stores"
           break
-        later = zor(*[p1[j][1] > p2[j][1] for j in range(len(el))]) if el else False
-        if later is False:
+        el = [b for b in elim_all]
+        p1 = [(b, z3.Int(b.decl().name() + "'a")) for b in el]
+        p2 = [(b, z3.Int(b.decl().name() + "'b")) for b in el]
+        n1 = [b.decl().name() for b in w1.bound]
+        n2 = [b.decl().name() for b in w2.bound]
+        bads = []
+        par_idx = [j for j, b in enumerate(el) if b.decl().name() in par_names]
+        if par_idx:
+          benign = False
+          if w1.kind == "atomic" and w2.kind == "atomic" and w1.op == w2.op and w1.op in ("add", "sub", "min", "max", "or", "and"):
+            benign = True  # commutative atomics
+          elif w1 is w2:
+            eln = {b.decl().name() for b in el}
+            try:
+              vfree = free_consts(lift(w1.value)) if not isinstance(w1.value, (Vec, tuple)) and w1.value is not None else {"?"}
+              if not (vfree & eln or "?" in vfree) and all(not (free_consts(lift(x)) & eln) for x in _full_idx(w1)):
+                benign = True  # every thread stores the same value into the same cell
+            except Unsupported:
+              pass
+          if not benign:
+            bads.append(zor(*[p1[j][1] != p2[j][1] for j in par_idx]))
+        seq_idx = [j for j, b in enumerate(el) if b.decl().name() not in par_names and b.decl().name() in n1 and b.decl().name() in n2]
+        if seq_idx and w1 is not w2:
+          # same thread, w1 executed at a lexicographically later iteration than w2
+          eq_par = zand(*[p1[j][1] == p2[j][1] for j in par_idx])
+          lex = False
+          for pos in range(len(seq_idx) - 1, -1, -1):
+            j = seq_idx[pos]
+            lex = zor(p1[j][1] > p2[j][1], zand(p1[j][1] == p2[j][1], lex))
+          bads.append(zand(eq_par, lex))
+        bad = zor(*bads)
+        if bad is False:
           continue
-        if not quick_valid(ex, z3.Not(z3.And(zb(g1), zb(g2), zb(same), zb(later)))):
-          ok, why = False, "stores of different iterations may overlap"
+        g1 = subst(zb(w1.guard), p1)
+        g2 = subst(zb(w2.guard), p2)
+        same = zand(*[lift(subst(lift(x), p1)) == lift(subst(lift(y), p2)) for x, y in zip(_full_idx(w1), _full_idx(w2))])
+        if not quick_valid(ex, z3.Not(z3.And(zb(g1), zb(g2), zb(same), zb(bad)))):
+          ok, why = False, f"stores at lines {w1.lineno}/{w2.lineno} of different iterations/threads may overlap"
           break
       if not ok:
         break
@@ -273,7 +345,7 @@ def summarise_stores(ex, body_log, arrs_before, outer_bound, fr_key, lineno):
         fidx = _full_idx(w)
         elim = [b for b in w.bound if b.decl().name() not in outer_names]
         fresh_idx = [z3.Int(f"x!{d}") for d in range(len(fidx))]
-        wit = solve_witness([lift(i) for i in fidx], elim, fresh_idx)
+        wit = solve_witness([lift(i) for i in fidx], elim, fresh_idx, zb(w.guard))
         if wit is None:
           ok, why = False, "store index not solvable for the loop counter"
           break
@@ -494,23 +566,7 @@ def _symbolic_loop(ex, s, fr, var, start, stop, step):
     env_end = fr.env
     body_log = st.log[log_start:]
     # loop-carried memory dependences
-    new_dirty = set()
-    k2 = z3.Int(k.decl().name() + "'")
-    for a in body_log:
-      if a.kind != "r" or a.arr.aid in dirty:
-        continue
-      for w in body_log:
-        if w.kind == "r" or w.arr.aid != a.arr.aid:
-          continue
-        if k.decl().name() not in (free_consts(zb(w.guard)) | set().union(*[free_consts(lift(i)) for i in w.idx] or [set()])):
-          # store does not depend on k: same cell every iteration -> carried unless read is after write in body
-          pass
-        gw = z3.substitute(zb(w.guard), (k, k2))
-        iw = [z3.substitute(lift(i), (k, k2)) for i in w.idx]
-        same = zand(*[lift(x) == y for x, y in zip(a.idx, iw)])
-        if not quick_valid(ex, z3.Not(z3.And(zb(a.guard), gw, zb(same), k != k2))):
-          new_dirty.add(a.arr.aid)
-          break
+    new_dirty = carried_dependences(ex, body_log, [k], dirty)
     if new_dirty <= dirty:
       break
     dirty |= new_dirty
